@@ -137,6 +137,13 @@ def run(tier):
                                       dict(ctx, e=c["e"], nan=c["nan"], batch_index=i, omega=om, depth=float(d), k=k, sqrt_gk_tanh=lhs))
                         break
 
+        # histories of one object: TLC behaviours of SpectrumSession.tla replayed (queries interleaved with in-place changes) ----
+        sessions = sc.tlc_sessions(chk, quick, chk.seed)
+        nrep, nq = sc.session_replay(chk, sessions, rng, "peak")
+        chk.add("spec_traces_replayed", nrep)
+        chk.set("session_queries_compared", nq)
+        evals += nq
+
         # code -> spec: random larger integer spectra, recorded peak indices validated by TLC ---------------------
         path = os.path.join(work, "c04.ndjson")
         recs = {}
